@@ -31,7 +31,7 @@ from .api import Registry, Module, Contract  # noqa: E402
 
 def load_modules():
     mods = []
-    for fn in sorted(glob.glob(os.path.join(VERIF, 'contracts', 'C[0-9][0-9]*.py'))):
+    for fn in sorted(glob.glob(os.path.join(VERIF, 'contracts', '[CT][0-9][0-9]*.py'))):
         name = 'contracts.' + os.path.basename(fn)[:-3]
         mod = importlib.import_module(name)
         m = getattr(mod, 'M', None)
@@ -166,6 +166,16 @@ def _task_check(key):
                             result['results'] = ctx.results
                             result['wall'] = time.time() - t0
                             return
+                    for (n, fn) in m.bounded_checks:
+                        if n == name:
+                            t0 = time.time()
+                            ctx = CheckCtx(_REG, _TIER)
+                            fn(ctx)
+                            result['bounded'] = ctx.bounded
+                            result['results'] = ctx.results
+                            result['wall'] = time.time() - t0
+                            result['is_bounded'] = True
+                            return
             result['crash'] = 'check not found'
         except BaseException:
             result['crash'] = traceback.format_exc()
@@ -184,6 +194,14 @@ class CheckCtx:
         self.reg = reg
         self.tier = tier
         self.results = []
+        self.bounded = []
+        self.seed = int(os.environ.get('VERIF_SEED', '0') or 0)
+
+    def bounded_result(self, function, bound, cases, exhaustive, failures=(), note=''):
+        """failures: list of dicts {'input': ..., 'expected': ..., 'actual': ..., 'replay': <python source>}"""
+        self.bounded.append({'function': function, 'bound': bound, 'cases': cases, 'exhaustive': bool(exhaustive),
+                             'failures': list(failures)[:5], 'n_failures': len(list(failures)), 'note': note,
+                             'label': 'bounded'})
 
     def obligation(self, name, ok, backend, detail=None, replay=None, undecided=False):
         self.results.append({'name': name, 'status': 'unknown' if undecided else ('unsat' if ok else 'sat'),
@@ -244,6 +262,10 @@ def main(argv=None):
             if args.only and args.only not in n:
                 continue
             tasks.append(('c', (prop, n)))
+        for (n, fn) in m.bounded_checks:
+            if args.only and args.only not in n:
+                continue
+            tasks.append(('c', (prop, n)))
     missing = [(q, why) for (q, why) in _REG.missing
                if (q in _REG.contracts and prop in _REG.contracts[q].props) or
                any(q == ls.qname for m in mine for ls in m.loops)]
@@ -281,6 +303,7 @@ def report(prop, mine, results, missing, seed, wall, args):
     assumed_contracts = set()
     assumed_asserts = set()
     vcs = 0
+    bounded_all = []
     for r in results:
         if 'crash' in r:
             crashes.append((r.get('qname') or r.get('name'), r['crash']))
@@ -322,6 +345,14 @@ def report(prop, mine, results, missing, seed, wall, args):
                 else:
                     undecided.append((name, 'solver: %s' % (cl['detail'],)))
         else:
+            for b in r.get('bounded', []):
+                bounded_all.append(b)
+                for fl in b['failures']:
+                    refuted.append({'obligation': 'bounded[%s] %s' % (b['function'], str(fl.get('input'))[:80]),
+                                    'function': None, 'detail': {k: v for k, v in fl.items() if k != 'replay'},
+                                    'replay_src': fl.get('replay')})
+            if r.get('is_bounded') and r.get('bounded'):
+                continue
             for res in r.get('results', []):
                 obligations += 1
                 by_backend[res['backend']] = by_backend.get(res['backend'], 0) + 1
@@ -374,7 +405,8 @@ def report(prop, mine, results, missing, seed, wall, args):
     for m in mine:
         trusted.extend(m.trusted_base)
         assumptions.extend(m.assumptions)
-        bounded.extend(getattr(m, 'bounded_results', []))
+        pass
+    bounded = bounded_all
     trusted.extend('model of %s' % x for x in sorted(used_models))
     trusted.extend('assumed contract of %s' % x for x in sorted(assumed_contracts))
     trusted.extend(['z3 %s' % z3.get_version_string(), 'cvc5 1.0.3 (fallback)', 'pyvc symbolic interpreter (DESIGN 2)',
